@@ -33,6 +33,10 @@ from pathlib import Path
 VERIF = Path(__file__).resolve().parent.parent
 LEAN_DIR = VERIF / "lean"
 REPO = Path(os.environ.get("LCC_REPO", "/repo"))
+# the real code under test is imported from REPO's working tree (the /venv editable install points at
+# /repo; an explicit LCC_REPO — e.g. a scratch worktree carrying a candidate patch — takes precedence)
+if str(REPO) not in sys.path:
+    sys.path.insert(0, str(REPO))
 EVIDENCE_DIR = VERIF / "evidence"
 REPLAY_DIR = VERIF / "replays"
 KNOWN_FINDINGS = VERIF / "known_findings.json"
@@ -321,9 +325,16 @@ def case_hash(obj):
 
 
 def load_known_findings():
-    if KNOWN_FINDINGS.exists():
-        return json.loads(KNOWN_FINDINGS.read_text())
-    return {"findings": []}
+    """known_findings.json plus the per-property fragments known_findings.d/*.json (committed, never
+    written at run time).  Entry: {property, signature, status: open|fixed, summary, commit?, witness?}"""
+    out = {"findings": []}
+    files = [KNOWN_FINDINGS] if KNOWN_FINDINGS.exists() else []
+    d = VERIF / "known_findings.d"
+    if d.is_dir():
+        files += sorted(d.glob("*.json"))
+    for f in files:
+        out["findings"] += json.loads(f.read_text()).get("findings", [])
+    return out
 
 
 def write_replay(prop_id, payload):
